@@ -124,7 +124,7 @@ def noise_floor(p: Problem, n) -> float:
     if p.exact:
         return 0.0
     z = (0,) * p.n_par
-    E = np.asarray([complex(e) for e in p.E])
+    E = np.diag(np.asarray(p.terms_f[z], complex))
     gaps = np.abs(E[:, None] - E[None, :])[~np.asarray(p.keep)]
     gap = float(gaps.min()) if gaps.size else 1.0
     size = sum(float(np.abs(M).sum(axis=1).max()) for o, M in p.terms_f.items() if o != z)
